@@ -75,6 +75,10 @@ pub fn install<P: Pad>(w: Box<World<P>>) {
     WORLD.with(|c| c.set(Box::into_raw(w) as *mut ()));
 }
 
+pub fn install_raw(p: *mut ()) {
+    WORLD.with(|c| c.set(p));
+}
+
 /// Leaks the world (handles are never dropped at the end of a run).
 pub fn uninstall() {
     CAPS.with(|c| c.borrow_mut().clear());
@@ -92,10 +96,10 @@ pub fn with_world<P: Pad, R>(f: impl FnOnce(&mut World<P>) -> R) -> R {
 }
 
 pub fn live_add(id: u32) {
-    LIVE.with(|c| c.borrow_mut().insert(id));
+    let _ = LIVE.try_with(|c| c.borrow_mut().insert(id));
 }
 pub fn live_remove(id: u32) {
-    LIVE.with(|c| c.borrow_mut().remove(&id));
+    let _ = LIVE.try_with(|c| c.borrow_mut().remove(&id));
 }
 fn is_live(id: u32) -> bool {
     LIVE.with(|c| c.borrow().contains(&id))
@@ -105,17 +109,17 @@ pub fn caps_add(owner: u32, action: u32, target: u32, addr: usize) {
     CAPS.with(|c| c.borrow_mut().push((owner, action, target, addr)));
 }
 pub fn caps_remove(owner: u32, action: u32) {
-    CAPS.with(|c| c.borrow_mut().retain(|x| !(x.0 == owner && x.1 == action)));
+    let _ = CAPS.try_with(|c| c.borrow_mut().retain(|x| !(x.0 == owner && x.1 == action)));
 }
 fn caps_of(owner: u32) -> Vec<(u32, usize)> {
     CAPS.with(|c| c.borrow().iter().filter(|x| x.0 == owner).map(|x| (x.2, x.3)).collect())
 }
 
 pub fn push_ctx(id: u32, ptr: *const (), kind: CbKind) {
-    CTX.with(|c| c.borrow_mut().push(Ctx { id, ptr, kind }));
+    let _ = CTX.try_with(|c| c.borrow_mut().push(Ctx { id, ptr, kind }));
 }
 pub fn pop_ctx() {
-    CTX.with(|c| {
+    let _ = CTX.try_with(|c| {
         c.borrow_mut().pop();
     });
 }
